@@ -30,6 +30,10 @@ type Case struct {
 	OutSizes   []int  `json:"out_sizes"`
 	WriteFrom  string `json:"write_from"` // open, first-message
 	Ending     string `json:"ending"`     // client-close, client-cut, server-close, client-reset
+	// CtlEvery > 0: the client sends a ping and an unsolicited pong behind every CtlEvery-th message; the
+	// server has user ping / pong handlers, which are callbacks of the connection like any other
+	CtlEvery  int `json:"ctl_every,omitempty"`
+	HandlerUs int `json:"handler_us,omitempty"` // time a message callback stays in the handler (default 50)
 	// YieldPerMille (instrumented build only): probability, in 1/1000, with which every lock / unlock
 	// statement of the library yields the processor or sleeps 1-50 us (schedule perturbation)
 	YieldPerMille int `json:"yield_per_mille,omitempty"`
@@ -65,10 +69,11 @@ type event struct {
 }
 
 type serverLog struct {
-	mu       sync.Mutex
-	ev       []event
-	inflight int32
-	overlap  int32
+	mu          sync.Mutex
+	ev          []event
+	inflight    int32
+	overlap     int32
+	overlapKind int32 // 1: close callback during another callback, 2: ping/pong handler involved
 }
 
 func (l *serverLog) add(e event) {
@@ -156,7 +161,11 @@ func startServer(c Case) (*wsServer, error) {
 		if c.WriteFrom == "first-message" && c.Writers > 0 {
 			startWriters(wc)
 		}
-		time.Sleep(50 * time.Microsecond)
+		hu := c.HandlerUs
+		if hu <= 0 {
+			hu = 50
+		}
+		time.Sleep(time.Duration(hu) * time.Microsecond)
 		if c.Ending == "client-reset" && e.seq == len(c.InSizes) {
 			// the trigger message of the "client-reset" ending: a long-running handler that keeps writing
 			// while the client resets the connection, so that the server's writes fail under its feet
@@ -169,8 +178,30 @@ func startServer(c Case) (*wsServer, error) {
 		atomic.AddInt32(&s.log.inflight, -1)
 	})
 	u.OnClose(func(wc *websocket.Conn, err error) {
+		if atomic.LoadInt32(&s.log.inflight) != 0 {
+			atomic.StoreInt32(&s.log.overlapKind, 1)
+		}
 		s.log.add(event{k: "close"})
 	})
+	if c.CtlEvery > 0 {
+		ctl := func(kind string) func(*websocket.Conn, string) {
+			return func(wc *websocket.Conn, data string) {
+				if atomic.AddInt32(&s.log.inflight, 1) != 1 {
+					atomic.StoreInt32(&s.log.overlap, 1)
+					atomic.StoreInt32(&s.log.overlapKind, 2)
+				}
+				s.log.add(event{k: kind + "-start"})
+				time.Sleep(100 * time.Microsecond)
+				if kind == "ping" {
+					_ = wc.WriteMessage(websocket.PongMessage, []byte(data))
+				}
+				s.log.add(event{k: kind + "-end"})
+				atomic.AddInt32(&s.log.inflight, -1)
+			}
+		}
+		u.SetPingHandler(ctl("ping"))
+		u.SetPongHandler(ctl("pong"))
+	}
 	transfer := c.Path == "blocking-transfer" || c.Path == "std-transfer"
 	handler := http.HandlerFunc(func(w http.ResponseWriter, r *http.Request) {
 		var err error
@@ -315,6 +346,10 @@ func runCase(c Case) vlib.Result {
 			break
 		}
 		sent++
+		if c.CtlEvery > 0 && (i+1)%c.CtlEvery == 0 {
+			_ = cl.WriteMessage(vlib.OpPing, []byte(fmt.Sprintf("p%d", i)))
+			_ = cl.WriteMessage(vlib.OpPong, []byte(fmt.Sprintf("q%d", i)))
+		}
 		if c.InPaceUs > 0 {
 			time.Sleep(time.Duration(c.InPaceUs) * time.Microsecond)
 		}
@@ -422,8 +457,15 @@ func runCase(c Case) vlib.Result {
 	ev := append([]event(nil), s.log.ev...)
 	s.log.mu.Unlock()
 	if atomic.LoadInt32(&s.log.overlap) != 0 {
-		res.Err = fmt.Errorf("two message callbacks of the connection ran at the same time")
+		if atomic.LoadInt32(&s.log.overlapKind) == 2 {
+			res.Err = fmt.Errorf("a ping/pong handler of the connection ran at the same time as another callback of the same connection")
+		} else {
+			res.Err = fmt.Errorf("two message callbacks of the connection ran at the same time")
+		}
 		return res
+	}
+	if c.CtlEvery > 0 {
+		res.Classes = append(res.Classes, "ping-pong-handlers")
 	}
 	openEnd, firstMsg, closeIdx, closes := -1, -1, -1, 0
 	nextIn := 0
@@ -530,6 +572,8 @@ func cells() []Case {
 					OutSizes: []int{12, 999, 1000, 1001, 2500, 12000}, WriteFrom: "open", Ending: "client-close"})
 				out = append(out, Case{Path: p, AsyncWrite: aw, Mode: m, FrameLimit: 1000, OpenUs: 100, InSizes: []int{8, 100}, Writers: 1, PerWriter: 3,
 					OutSizes: []int{12, 2500}, WriteFrom: "open", Ending: "client-reset"})
+				out = append(out, Case{Path: p, AsyncWrite: aw, Mode: m, FrameLimit: 1000, OpenUs: 100, InSizes: []int{8, 100, 8, 5000, 8, 8}, Writers: 0, PerWriter: 1,
+					OutSizes: []int{12}, WriteFrom: "open", Ending: "client-close", CtlEvery: 1, HandlerUs: 3000})
 			}
 		}
 	}
@@ -553,6 +597,10 @@ func gen(t *rapid.T) Case {
 	}
 	c.WriteFrom = rapid.SampledFrom([]string{"open", "first-message"}).Draw(t, "writefrom")
 	c.Ending = rapid.SampledFrom([]string{"client-close", "client-cut", "server-close", "client-reset"}).Draw(t, "ending")
+	if rapid.IntRange(0, 2).Draw(t, "ctl") == 0 {
+		c.CtlEvery = rapid.SampledFrom([]int{1, 2, 5}).Draw(t, "ctlevery")
+		c.HandlerUs = rapid.SampledFrom([]int{50, 500, 3000}).Draw(t, "handlerus")
+	}
 	if vlib.YieldAvailable {
 		c.YieldPerMille = rapid.SampledFrom([]int{0, 0, 20, 100, 300}).Draw(t, "yield")
 	}
@@ -562,7 +610,7 @@ func gen(t *rapid.T) Case {
 func TestCheck(t *testing.T) {
 	r := vlib.NewRunner(t, "C14")
 	vlib.RunCases(r, "cells", cells(), runCase, true)
-	r.MarkExhaustive("matrix cells upgrade path x send mode x epoll mode (30 cells, two fixed workloads each: orderly close, and client reset while a handler runs and writes)")
+	r.MarkExhaustive("matrix cells upgrade path x send mode x epoll mode (30 cells, three fixed workloads each: orderly close, client reset while a handler runs and writes, pings and pongs behind every message with slow handlers)")
 	vlib.RunCheck(r, vlib.Check[Case]{Name: "sessions", N: r.Pick(900, 12000), Gen: gen, Run: runCase, Confirm: true, RecordCurrent: true})
 	r.Finish()
 }
